@@ -31,10 +31,11 @@ func TestGovcBounded_C11(t *testing.T) {
 		rounds, per = 200, 1000
 	}
 	const P, C = 4, 4
-	for r := 0; r < rounds; r++ {
+	for r := 0; r < rounds && fails < 3; r++ {
 		cases++
 		l := NewSync[int]()
 		var produced, consumed int64
+		deadline := time.Now().Add(20 * time.Second) // a lost value must not hang the harness
 		seen := make([]int32, P*per)
 		var wg, cwg sync.WaitGroup
 		var stop int32
@@ -57,7 +58,7 @@ func TestGovcBounded_C11(t *testing.T) {
 				for i := range last {
 					last[i] = -1
 				}
-				for atomic.LoadInt64(&consumed) < int64(P*per) {
+				for atomic.LoadInt64(&consumed) < int64(P*per) && time.Now().Before(deadline) {
 					var v int
 					var ok bool
 					if c%2 == 0 {
@@ -99,6 +100,9 @@ func TestGovcBounded_C11(t *testing.T) {
 		cwg.Wait()
 		atomic.StoreInt32(&stop, 1)
 		wg.Wait()
+		if atomic.LoadInt64(&consumed) != int64(P*per) {
+			fail("round %d: only %d of %d pushed values were ever popped (values lost)", r, atomic.LoadInt64(&consumed), P*per)
+		}
 		for v, n := range seen {
 			if n != 1 {
 				fail("round %d: value %d popped %d times", r, v, n)
